@@ -149,6 +149,7 @@ def make_lock_class(base):
                 return base.acquire(self, timeout, poll_interval, **kw)
             from filelock import Timeout
             s.yield_point('lock-acquire')
+            eff = timeout if timeout is not None else getattr(self, 'timeout', -1)
             while True:
                 try:
                     r = base.acquire(self, timeout=0, blocking=False)
@@ -156,6 +157,11 @@ def make_lock_class(base):
                     s.yield_point('lock-acquired')
                     return r
                 except Timeout:
+                    if eff is not None and eff >= 0:
+                        # a FINITE wait: the holder may keep the lock (it computes while holding it) for longer than
+                        # any finite time, so such a wait can always expire
+                        s.event('lock-wait-expired')
+                        raise
                     s.yield_point('lock-wait', blocked=True)
 
         def release(self, force=False):
